@@ -6,7 +6,7 @@ console: every `str` it prints is *console markup* - `[name]` opens a style, `[/
 raises `MarkupError` when nothing is open, `:name:` is an emoji code), the progress bar of the per-file
 loop (`ProgressBar.set_current(relative_path)`), and the f-string of the handler.  The model is
 lean/FordModel/Markup.lean (rich's `escape` / `render` as they are), the tables are `Gen.warnSpec`,
-`Gen.progressSpec`, `Gen.rejectionMsg` (translate/c20diag.py).
+`Gen.progressSpec`, `Gen.rejectionRules` (translate/c20diag.py).
 
 Inputs (none of them special to one change of the code):
   * names   - the additional file gets a name (and sometimes a directory) decorated with the characters
@@ -14,7 +14,8 @@ Inputs (none of them special to one change of the code):
               colons, quotes, blanks, braces, `%`, non-ASCII letters;
   * lines   - reader errors whose offending line (quoted in the exception text) is a line of Fortran-like
               tokens: array constructors old and new (`(/ 1 /)`, `[1, 2]`, the mixed-up `[/ 1 /]`),
-              sections `a(1:m:2)`, component accesses, strings; INCLUDE of a missing, decorated file;
+              sections `a(1:m:2)`, component accesses, strings; INCLUDE of a missing, decorated file; INCLUDE of an
+              existing, decorated file that holds a line the reader refuses (the exception then names that file);
   * the run is made as a user makes it: real `warn`, progress bar on (FORD_DEBUGGING unset).
 Oracle (real code only): O2 the run completes, O1 the valid files and their slices of the project lists
 are what they are without the additional file, O3 for every rejected file some call of `warn` put its
@@ -299,7 +300,7 @@ def fpp_stream(rep, real, rng, quick, cases, baselines, stats):
 def run_stream(rep, drv, real, rng, quick, cases, baselines):
     n_rich = 1200 if quick else 8000
     n_proj = 150 if quick else 900
-    n_lines = 40 if quick else 240
+    n_lines = 56 if quick else 320
     n_msgs = 250 if quick else 1500
     n_prog = 50 if quick else 300
     stats = {"warn_comparisons": 0, "warn_disagreements": 0, "warn_model_abstains": 0,
@@ -335,15 +336,26 @@ def run_stream(rep, drv, real, rng, quick, cases, baselines):
         lrng = random.Random(rng.random())
         goodnames = [n_ for n_, _ in c["goods"]]
         files = []
+        aux_here = []
+        c_names = {n_ for n_, _ in c["files"]}
         for name, src in c["files"]:
             if name in texts:
                 files.append((name, texts[name]))
             elif kind == "offending-line":
                 k = lrng.random()
-                if k < 0.65:
+                if k < 0.5:
                     body = "module diag_m\n  real :: coeffs(3)\n  & " + offending_line(lrng) + "\nend module diag_m\n"
-                elif k < 0.75:
+                elif k < 0.6:
                     body = "module diag_m\n  include \"<<SELF>>\"\nend module diag_m\n"      # a file that includes itself
+                elif k < 0.8:
+                    # an include file that exists (decorated name) and has the offending line: every kind of
+                    # line the reader refuses; the exception text then quotes - and possibly names - that file
+                    inc = "zi_" + decoration(lrng).replace('"', "").replace("'", "").strip() + ".inc"
+                    ol = offending_line(lrng)
+                    line = lrng.choice(["& " + ol, "x = " + ol + " !> doc beside code", "integer :: n = 10 !| " + ol,
+                                        "y = 2 !* " + ol])
+                    body = f"module diag_m\n  include \"{inc}\"\nend module diag_m\n"
+                    aux_here.append((inc, "real :: coeffs(3)\n" + line + "\n"))
                 else:
                     inc = decoration(lrng, allow_slash=True).replace('"', "").replace("'", "")
                     body = f"module diag_m\n  include \"{inc}.inc\"\nend module diag_m\n"
@@ -351,13 +363,21 @@ def run_stream(rep, drv, real, rng, quick, cases, baselines):
             else:
                 from .c20 import src_text
                 files.append((name, src_text(src, lrng)))
-        from .c20 import disk_names
+        from .c20 import disk_names, with_aux
         disk = disk_names([n_ for n_, _ in files])
+        if kind == "as-generated":
+            files = with_aux(files, c["files"], disk)       # the files an additional file INCLUDEs
+        for an, at in aux_here:
+            disk[an] = an
+            files.append((an, at))
         plain_name = disk["bad.f90"]
         prefix = plain_name[: plain_name.index("_") + 1]
         ext = lrng.choice([".f90", ".f90", ".f90", ".f95", ".f03"])
         disk["bad.f90"] = decorated_path(lrng, prefix, ext)
         rel = disk["bad.f90"]
+        # the files it INCLUDEs are looked for relative to the directory it is in
+        for an in [n_ for n_, _ in files if n_ not in c_names]:
+            disk[an] = str(Path(rel).parent / an) if str(Path(rel).parent) != "." else an
         shape = ("closing-tag" if any(t in rel for t in ("[/",)) else "dir" if "/" in rel else
                  "bracket" if "[" in rel or "]" in rel else "colon" if ":" in rel else
                  "backslash" if "\\" in rel else "other" if rel != f"{prefix}bad{ext}" else "plain")
